@@ -929,6 +929,22 @@ class Emitter:
             return True
         if e[0] == "un" and e[1] == "-":
             return self.is_literal(e[2])
+        if e[0] == "var" and e[1] in getattr(self, "flex", ()):
+            return True
+        return False
+
+    def literal_valued(self, e):
+        """an expression whose value is always one of a few unsuffixed integer literals (Rust infers its type from its use)"""
+        while e[0] == "paren":
+            e = e[1]
+        if e[0] == "int" and e[2] is None:
+            return abs(e[1]) < 128
+        if e[0] == "if" and e[3] is not None:
+            return self.literal_valued(e[2]) and self.literal_valued(e[3])
+        if e[0] == "block" and not e[1] and e[2] is not None:
+            return self.literal_valued(e[2])
+        if e[0] == "match":
+            return all(self.literal_valued(b) for _, _, b in e[2])
         return False
 
     def underlying(self, t):
@@ -952,6 +968,8 @@ class Emitter:
             raise Untranslatable("floating-point literal %s" % e[1])
         if k == "var":
             if e[1] in self.env:
+                if e[1] in getattr(self, "flex", ()) and is_int(want):
+                    return self.env[e[1]][0], want        # a local holding only unsuffixed literals takes the type its use demands
                 return self.env[e[1]]
             if e[1] == "None" and isinstance(want, tuple) and want[0] == "opt":
                 return "None", want
@@ -1534,6 +1552,10 @@ class Emitter:
                     raise Untranslatable("cfg attribute on a statement: " + a)
             want = norm_ty(s[2], self.self_ty) if s[2] is not None else None
             a, t = self.ex(s[3], want)
+            if want is None and s[1][0] == "pid" and self.literal_valued(s[3]):
+                if not hasattr(self, "flex"):
+                    self.flex = set()
+                self.flex.add(s[1][1])
             if want is not None and t != want:
                 if not (self.underlying(t) == self.underlying(want)):
                     raise Untranslatable("let %r: declared %r, found %r" % (s[1], want, t))
@@ -1682,16 +1704,37 @@ def translate_fragment(src, scope, fn_name, steps, free, result, coq_name, known
     while not (toks[j][0] == "op" and toks[j][1] == "{"):
         j += 1
     ftoks = toks[j:match_brace(toks, j)]
-    em = Emitter(known, field_vars={k: v for k, v in free.items() if ("." in k or "[" in k)})
-    for k, v in free.items():
-        if "." not in k and "[" not in k:
-            em.env[k] = v
-    pos = 0
-    for kind, name in steps:
-        st, pos = find_stmt_tokens(ftoks, kind, name, pos)
-        p = Parser(st)
-        s, _ = p.stmt()
-        em.stmt(s)
+    # a step may use a local that a rewrite of the source introduced in front of it (`let dq = d.unwrap_or(0); let q = a + dq;`):
+    # such a `let` is pulled into the fragment (searched from the start of the function) and the translation restarted
+    steps = list(steps)
+    for _attempt in range(8):
+        em = Emitter(known, field_vars={k: v for k, v in free.items() if ("." in k or "[" in k)})
+        for k, v in free.items():
+            if "." not in k and "[" not in k:
+                em.env[k] = v
+        pos = 0
+        missing = None
+        for kind, name in steps:
+            if isinstance(kind, tuple):          # a pulled-in prerequisite: ('pre', 'let'), searched from the start
+                st, _ = find_stmt_tokens(ftoks, kind[1], name, 0)
+            else:
+                st, pos = find_stmt_tokens(ftoks, kind, name, pos)
+            p = Parser(st)
+            s, _ = p.stmt()
+            try:
+                em.stmt(s)
+            except Untranslatable as ex:
+                m = re.match(r"unknown variable `(\w+)`", str(ex))
+                if not m or any(n == m.group(1) for _, n in steps):
+                    raise
+                missing = m.group(1)
+                break
+        if missing is None:
+            break
+        idx = [i for i, (k, n) in enumerate(steps) if (k, n) == (kind, name)][0]
+        steps.insert(idx, (("pre", "let"), missing))
+    else:
+        raise Untranslatable("fragment needs too many earlier locals")
     if result not in em.env:
         raise Untranslatable("fragment result `%s` not bound" % result)
     a, t = em.env[result]
